@@ -45,6 +45,7 @@ type vrScenario struct {
 	intents         int           // > 1: that many intents (owner1..ownerN, same content) in the transaction
 	modifyFailNth   int           // > 0: the n-th write of the intended store fails (1-based), the others succeed
 	duplicate       bool          // the request names owner1 twice: it is refused as a whole
+	named           [][2]string   // != nil: the intents of the transaction as (name, content) pairs, instead of owner1..ownerN
 	existingContent string        // content of the existing intent (default valid)
 }
 
@@ -62,6 +63,13 @@ func vrIntentJSON(t *testing.T, content string) string {
 		Interface: map[string]*sdcio_schema.SdcioModel_Interface{
 			"ethernet-1/1": {Name: ygot.String("ethernet-1/1"), Description: ygot.String("foo")},
 		},
+	}
+	if content == "warning-only" {
+		// a leafref with require-instance false that does not resolve: a warning, not an error
+		return `{"leafref-optional":"mgmt0"}`
+	}
+	if content == "pattern-error" {
+		return `{"patterntest":"bye bye"}`
 	}
 	if content == "missing-mandatory" {
 		device.Doublekey = map[sdcio_schema.SdcioModel_Doublekey_Key]*sdcio_schema.SdcioModel_Doublekey{
@@ -185,6 +193,12 @@ func vrRunLive(t *testing.T, sc vrScenario) (tracep *[]string, rsp *sdcpb.Transa
 	}
 	if sc.duplicate {
 		tis = append(tis, mk("owner1", prio, sc.content))
+	}
+	if sc.named != nil {
+		tis = nil
+		for i, nc := range sc.named {
+			tis = append(tis, mk(nc[0], prio+int32(i), nc[1]))
+		}
 	}
 	rsp, err = d.TransactionSet(ctx, "trans1", tis, replace, timeout, sc.dryRun)
 	return
@@ -413,6 +427,30 @@ func TestVerifReplayTransactionSet(t *testing.T) {
 			}
 		}
 	}
+	// C03: an error reported for any intent rejects the transaction, whatever the other intents report and however
+	// the names of the intents sort
+	for _, named := range [][][2]string{
+		{{"alpha", "pattern-error"}, {"zeta", "warning-only"}},
+		{{"zeta", "pattern-error"}, {"alpha", "warning-only"}},
+		{{"alpha", "pattern-error"}, {"zeta", "valid"}},
+		{{"alpha", "warning-only"}, {"beta", "pattern-error"}, {"zeta", "warning-only"}},
+	} {
+		n++
+		sc := vrScenario{content: "valid", named: named}
+		trace, rsp, err, _ := vrRun(t, sc)
+		reported := false
+		for _, ir := range rsp.GetIntents() {
+			reported = reported || len(ir.GetErrors()) > 0
+		}
+		if err == nil && reported && len(trace) != 0 {
+			for _, fn := range []string{fnTS, fnLL} {
+				fmt.Printf("REPLAY-FAIL fn=%s clause=rejected_changes_nothing input=intents=%v,dryRun=false err=<nil> reportedIntentErrors=true effects=%v why=validation errors are reported for an intent, yet the transaction has effects\n", fn, named, trace)
+			}
+		}
+		if err == nil && !reported {
+			fmt.Printf("REPLAY-FAIL fn=%s clause=rejected_changes_nothing input=intents=%v why=no validation error reported for a value that violates its pattern\n", fnLL, named)
+		}
+	}
 	// C03: the updates and deletes a dry run reports are the ones the same request sends when executed for real
 	for _, repl := range []bool{false, true} {
 		n++
@@ -452,9 +490,18 @@ func TestVerifReplayTransactionSet(t *testing.T) {
 	for _, repl := range []bool{false, true} {
 		n++
 		sc := vrScenario{content: "valid", replace: repl, duplicate: true}
-		trace, _, err, _ := vrRun(t, sc)
+		trace, _, err, dd := vrRun(t, sc)
 		if err == nil || len(trace) != 0 {
 			fmt.Printf("REPLAY-FAIL fn=%s clause=refused_request_has_no_effect input=%s,sameIntentTwice=true err=%v effects=%v why=a request that names an intent twice has to be refused without any effect\n", fnTS, sc, err, trace)
+		}
+		// C06: and it leaves the datastore able to accept the next transaction
+		ctx2, cancel2 := context.WithTimeout(context.Background(), 300*time.Millisecond)
+		_, err2 := dd.TransactionSet(ctx2, "trans2", nil, nil, time.Hour, true)
+		cancel2()
+		if errors.Is(err2, ErrDatastoreLocked) {
+			for _, cl := range []string{"never_wedged", "error_frees_slot"} {
+				fmt.Printf("REPLAY-FAIL fn=%s clause=%s input=%s,sameIntentTwice=true why=after the refused request a further TransactionSet is refused as well: the datastore is locked with no timer running\n", fnTS, cl, sc)
+			}
 		}
 	}
 	// C05: a rollback the validation rejects has restored nothing: the cancel says so (the stored former version of the
